@@ -161,6 +161,9 @@ def call_path(I, path, args, e, env, arg_nodes=None, ci=None):
     f, places = m
     if args is None:
         args = eval_args(I, arg_nodes, env, places)
+    if args and path.split("::")[-1] in ("ok", "err", "is_ok", "is_err", "is_some", "is_none", "unwrap_or", "unwrap_or_else", "unwrap_or_default", "or", "or_else", "map_or", "map_or_else", "iter", "into_iter") and ("Result" in path or "Option" in path):
+        a0 = args[0] if not isinstance(args[0], Ref) else I.deref(args[0])
+        I.refuse_handled_failure(a0, f"absorbed by `{path.split('::')[-1]}`", FX.short(node.get("sp")))
     if not places and not any(isinstance(x, Ref) for x in args) and any(isinstance(x, Ite) and isinstance(x.a, IntV) and isinstance(x.b, IntV) for x in args):
         # numeric models are lifted over conditional arguments
         return I.ite_lift(lambda *xs: f(I, list(xs), node, ci), *args)
